@@ -40,7 +40,7 @@ def compare(prog, pred, events):
     if ret is None or ret.get("ok") != 1:
         return "run did not return normally: %s" % (ret,)
     for i in sorted(set(pw) | set(writes)):
-        if i <= len(prog["nodes"]) and prog["nodes"][i - 1]["kind"] in ("fb", "ite", "elem0", "elem1"):
+        if i <= len(prog["nodes"]) and prog["nodes"][i - 1]["kind"] in ("fb", "ite", "elem0", "elem1", "lradd", "lrmin", "lrmax"):
             continue  # feedback sources / reference selectors are library nodes: observed through their readers
         a, b = pw.get(i, []), writes.get(i, [])
         if a != b:
